@@ -115,7 +115,7 @@ def run_unit(ck, unit):
             return
         n = 0
         for fam, name, rule in T.select(ck.tier, ck.seed):
-            if fam in ('nonpredicate',):
+            if fam in ('nonpredicate', 'undefined-ident'):
                 continue
             pre = prefix_rule(rule)
             if pre is None:
